@@ -604,6 +604,22 @@ func paramVars(info *types.Info, ft *ast.FuncType) []*types.Var {
 
 // serveLocks: mutexes taken by code reachable from the handler entry points.
 func (w *waitAn) serveLocks(out map[string]map[string]bool, fnName func(*ast.FuncDecl) string) {
+	w.serveWalk(fnName, func(name string, n ast.Node) {
+		if c, ok := n.(*ast.CallExpr); ok {
+			if key, op := w.mutexOp(c); op == "lock" {
+				if out[key] == nil {
+					out[key] = map[string]bool{}
+				}
+				out[key][name] = true
+			}
+		}
+	})
+}
+
+// serveWalk visits every node that can run on the serve goroutine: the bodies of the functions
+// reachable from the handler entry points, minus branches that are dead for non-nil handler
+// parameters and minus the goroutines the handler starts.
+func (w *waitAn) serveWalk(fnName func(*ast.FuncDecl) string, visit func(fn string, n ast.Node)) {
 	seen := map[serveKey]bool{}
 	var work []serveKey
 	push := func(fn *types.Func, mask uint64) {
@@ -660,16 +676,12 @@ func (w *waitAn) serveLocks(out map[string]map[string]bool, fnName func(*ast.Fun
 			if n == nil || dead[n] {
 				return false
 			}
-			switch n := n.(type) {
-			case *ast.GoStmt:
+			if _, isGo := n.(*ast.GoStmt); isGo {
 				return false
+			}
+			visit(name, n)
+			switch n := n.(type) {
 			case *ast.CallExpr:
-				if key, op := w.mutexOp(n); op == "lock" {
-					if out[key] == nil {
-						out[key] = map[string]bool{}
-					}
-					out[key][name] = true
-				}
 				if fn := w.calleeFunc(n); fn != nil && fn.Pkg() == w.l.Pkg {
 					switch f := unparenOnly(n.Fun).(type) {
 					case *ast.Ident:
@@ -733,6 +745,13 @@ func whereList(m map[string]map[string]bool) []string {
 // waitFactsOf analyses one handler package (every non-test file: the call graph does not stop
 // at the files a property anchors).
 func waitFactsOf(l *loaded) *waitFact {
+	wf, _, _ := waitFactsOfX(l, nil)
+	return wf
+}
+
+// waitFactsOfX also returns the channel operations on the serve goroutine (chanfacts.go; only
+// when fset is given) and the exported request helpers of the package.
+func waitFactsOfX(l *loaded, fset *token.FileSet) (*waitFact, []chanOp, []string) {
 	w := &waitAn{l: l, decls: map[*types.Func]*ast.FuncDecl{}, awaits: map[*types.Func]bool{}, taintField: map[*types.Var]bool{}}
 	var fds []*ast.FuncDecl
 	for _, file := range l.Files {
@@ -769,10 +788,15 @@ func waitFactsOf(l *loaded) *waitFact {
 	}
 	serve := map[string]map[string]bool{}
 	w.serveLocks(serve, fnName)
-	if len(held) == 0 && len(serve) == 0 {
-		return nil
+	var ops []chanOp
+	if fset != nil {
+		ops = w.chanOps(fset, fnName)
 	}
-	return &waitFact{Pkg: l.Pkg.Name(), Held: sortedKeys(held), Serve: sortedKeys(serve), HeldWhere: whereList(held), ServeWhere: whereList(serve)}
+	helpers := w.requestHelpers(fnName)
+	if len(held) == 0 && len(serve) == 0 {
+		return nil, ops, helpers
+	}
+	return &waitFact{Pkg: l.Pkg.Name(), Held: sortedKeys(held), Serve: sortedKeys(serve), HeldWhere: whereList(held), ServeWhere: whereList(serve)}, ops, helpers
 }
 
 func leanStrList(l []string) string {
